@@ -7,6 +7,7 @@ From GN Require Import Proofs.JobsRegistry.
 From GN Require Import Gen.UtilFormat Model.ConsoleSrc.
 From Coq Require Import String.
 From GN Require Import Model.BufferSrc.
+From GN Require Gen.RequireGlue Model.ResolveSrc Gen.UrlTables Model.UspSrc Gen.UrlGlue Model.UrlSrc Gen.LoopSkeleton Model.LoopSrc.
 Open Scope Z_scope.
 
 (* every index, slice and make in the Buffer natives (numeric methods, toString, write, alloc/fill, from) — the list is
@@ -71,6 +72,17 @@ Print Assumptions C09_strings_source_tie.
 Theorem C09_console_util_source_tie : console_util_src = expected_console_util_src.
 Proof. vm_compute. reflexivity. Qed.
 Print Assumptions C09_console_util_source_tie.
+
+(* the rest of what a script can reach - require() and its resolution (require/resolve.go, module.go), URL and URLSearchParams
+   (url/url.go, nodeurl.go, urlsearchparams.go, escape.go) and the timer functions with the loop that runs them
+   (eventloop/eventloop.go) - has the text that the models of C01-C08 and C12-C15 were written against and that the hostile
+   sweep was exercised on (regenerated from the source on every run): a new index or slice expression, a conversion moved into
+   a loop, a new installed function cannot arrive unnoticed *)
+Theorem C09_reachable_source_tie :
+  Gen.RequireGlue.resolve_src = Model.ResolveSrc.expected_resolve_src /\ Gen.UrlTables.usp_src = Model.UspSrc.expected_usp_src /\
+  Gen.UrlGlue.url_funcs = Model.UrlSrc.expected_url_funcs /\ Gen.LoopSkeleton.loop_funcs = Model.LoopSrc.expected_loop_funcs.
+Proof. repeat split; vm_compute; reflexivity. Qed.
+Print Assumptions C09_reachable_source_tie.
 
 (* removeJob (reached from clearTimeout, doTimeout, interval shutdown and Terminate): with the position invariant of loop.jobs,
    called on a registered job or on one already marked -1 it never indexes out of range *)
